@@ -336,6 +336,11 @@ func (l *log) GetByTime(start time.Time) (message.Message, error) {
 		switch msg, err := rdr.GetByTime(ts, tctx); err {
 		case nil:
 			return msg, nil
+		case index.ErrTimeIndexEmpty:
+			// empty head segment, try the rest
+			if i == 0 {
+				return message.Invalid, err
+			}
 		case index.ErrTimeBeforeStart:
 			// not in this segment, try the rest
 			if i == 0 {
@@ -345,7 +350,12 @@ func (l *log) GetByTime(start time.Time) (message.Message, error) {
 			// time is between end of this and begin next
 			if i < len(l.readers)-1 {
 				nextRdr := l.readers[i+1]
-				return nextRdr.Get(message.OffsetOldest)
+				msg, err := nextRdr.Get(message.OffsetOldest)
+				if err == index.ErrOffsetIndexEmpty {
+					// the next segment is the empty head, nothing is after
+					return message.Invalid, errTimeNotFound
+				}
+				return msg, err
 			}
 			return message.Invalid, errTimeNotFound
 		default:
